@@ -10,7 +10,7 @@ from models import ref_mgh
 from sim import simrandom
 from sim.sched import HarnessError, InvalidCase, Violation
 
-FORMATS = ("list", "dense", "csr", "csc", "coo")
+FORMATS = ("list", "dense", "csr", "csc", "coo", "bsr", "lil", "dok", "dia")
 FILLS = ("upper", "symmetric", "lower", "mixed")      # mixed: every edge stored once, in either triangle (a relabelled upper-triangular adjacency)
 DTYPES = ("int", "int", "bool", "int8", "uint8")
 MSO_CHOICES = ([0.5, 1.0], [0.5, 1.0], [0.0, 0.0], [1.0, 1.0], [1.5, 0.0], [0.0, 2.0], [-1.0, 0.5])
@@ -167,6 +167,13 @@ def materialize(g, rep):
         return [[(bool(x) if rep["dtype"] == "bool" else int(x)) for x in row] for row in A]
     if f == "dense":
         return A
+    if f in ("bsr", "lil", "dok", "dia"):
+        if rep["dtype"] != "int":
+            A = A.astype(np.int64)
+        if f == "bsr":
+            bs = 2 if n % 2 == 0 and n >= 2 else (3 if n % 3 == 0 and n >= 3 else 1)
+            return sps.bsr_matrix(A, blocksize=(bs, bs))           # blocks store their zeros explicitly
+        return {"lil": sps.lil_matrix, "dok": sps.dok_matrix, "dia": sps.dia_matrix}[f](A)
     if f in ("csr", "csc", "coo"):
         k = int(rep.get("explicit_zeros", 0) or 0)
         if not k:
@@ -221,6 +228,28 @@ def largest_components(g):
 
 
 # ---------------------------------------------------------------- evaluation
+class parallel_world(object):
+    """gromov_hausdorff runs no workers today; should a change make it (joblib over the pairs of a collection), the
+    workers belong to the scheduler like the imager's: a SimParallel world for the duration of the case."""
+
+    def __init__(self, sched, case):
+        self.sched, self.cfg, self.seed = sched, case.get("config") or {}, int(case.get("sched_seed", 0))
+
+    def __enter__(self):
+        from sim import simparallel
+        mode = self.cfg.get("parallel_mode") or ("thread-coop", "thread-preempt", "proc")[(self.seed >> 3) % 3]
+        if mode not in ("proc", "thread-coop", "thread-preempt"):
+            raise InvalidCase("parallel mode")
+        self.world = simparallel.World(self.sched, mode, 8)
+        simparallel.install(self.world)
+        return self.world
+
+    def __exit__(self, *a):
+        from sim import simparallel
+        simparallel.uninstall()
+        return False
+
+
 def call_gh(sched, args, mso, mode, k, warn_filter="always", site="gromov_hausdorff"):
     """args = (AG, AH) or (collection,).  Returns (result, n_disconnected_warnings, draws)."""
     gh = sut()
